@@ -44,8 +44,77 @@ fn describe(types: &Types, sigs: &HashMap<String, String>, kind: ItemKind, with_
             }
         }
         ItemKind::Type(Type::Value(v)) => json!({"c": "rtype", "desc": value_desc(types, v)}),
+        ItemKind::Type(Type::Resource(_)) => json!({"c": "rtype", "desc": "resource"}),
         other => json!({"c": "other", "desc": other.desc(types)}),
     }
+}
+
+/// the resources a kind mentions, by path, resolved through aliases
+fn resources(types: &Types, kind: ItemKind, path: &str, out: &mut Vec<(String, wac_types::ResourceId)>) {
+    match kind {
+        ItemKind::Type(Type::Resource(r)) => out.push((path.to_string(), types.resolve_resource(r))),
+        ItemKind::Func(id) => {
+            for (p, t) in &types[id].params {
+                if let wac_types::ValueType::Own(r) | wac_types::ValueType::Borrow(r) = t {
+                    out.push((format!("{path}({p})"), types.resolve_resource(*r)));
+                }
+            }
+        }
+        ItemKind::Instance(id) => {
+            for (n, k) in &types[id].exports {
+                resources(types, *k, &format!("{path}/{n}"), out);
+            }
+        }
+        _ => {}
+    }
+}
+
+/// use-transparency of an aggregated interface: a used type *is* the type its source interface
+/// exports (same resource after resolving aliases, same description otherwise), and handles in
+/// the interface's functions name that resource.  Returns what is wrong.
+fn use_transparency(types: &Types, imports: &[(String, ItemKind)]) -> Vec<String> {
+    let mut out = Vec::new();
+    for (iname, kind) in imports {
+        let ItemKind::Instance(id) = kind else { continue };
+        for (local, used) in &types[*id].uses {
+            let src = &types[used.interface];
+            let src_name = used.name.as_deref().unwrap_or(local.as_str());
+            // the source is the aggregated import of that name, not a stale copy
+            if let Some(sid) = &src.id {
+                match imports.iter().find(|(n, _)| n == sid) {
+                    Some((_, ItemKind::Instance(agg_src))) if *agg_src == used.interface => {}
+                    Some(_) => out.push(format!("`{iname}` uses `{local}` from an interface that is not the aggregated import `{sid}`")),
+                    // the caller aggregated the user only
+                    None => {}
+                }
+            }
+            let (Some(mine), Some(theirs)) = (types[*id].exports.get(local), src.exports.get(src_name)) else {
+                out.push(format!("`{iname}` uses `{local}` but one side does not export it"));
+                continue;
+            };
+            match (mine, theirs) {
+                (ItemKind::Type(Type::Resource(a)), ItemKind::Type(Type::Resource(b))) => {
+                    if types.resolve_resource(*a) != types.resolve_resource(*b) {
+                        out.push(format!("resource `{local}` of `{iname}` is not the resource `{src_name}` of the interface it is used from"));
+                    }
+                    let mut rs = Vec::new();
+                    resources(types, *kind, iname, &mut rs);
+                    for (path, r) in rs {
+                        if types[r].name == types[types.resolve_resource(*a)].name && r != types.resolve_resource(*a) {
+                            out.push(format!("{path} names a second resource `{}`", types[r].name));
+                        }
+                    }
+                }
+                (ItemKind::Type(Type::Value(a)), ItemKind::Type(Type::Value(b))) => {
+                    if value_desc(types, *a) != value_desc(types, *b) {
+                        out.push(format!("type `{local}` of `{iname}` differs from the type `{src_name}` it is used from"));
+                    }
+                }
+                _ => out.push(format!("`{local}` of `{iname}` and its source are of different kinds")),
+            }
+        }
+    }
+    out
 }
 
 /// the spec side: TLC prints empty functions as []; a used interface is given as the set of
@@ -89,8 +158,51 @@ fn norm_decoded(v: &Value) -> Value {
             }
             json!({"c": "inst", "ex": Value::Object(ex)})
         }
+        Some("type") if v["desc"].as_str().map(|d| d.starts_with("Resource(")).unwrap_or(false) => json!({"c": "rtype", "desc": "resource"}),
         Some("type") => json!({"c": "rtype", "desc": v["desc"]}),
+        // the decoder does not name the resource of a handle
+        Some("func") if v["sig"] == "?(x:own<?>)->_" => json!({"c": "func", "sig": "H"}),
         _ => v.clone(),
+    }
+}
+
+/// the distinct resources (validator identities) the decoded imports export
+fn decoded_resources(v: &Value, out: &mut HashSet<String>) {
+    match v["c"].as_str() {
+        Some("inst") => {
+            if let Some(m) = v["ex"].as_object() {
+                for k in m.values() {
+                    decoded_resources(k, out);
+                }
+            }
+        }
+        Some("type") => {
+            if let Some(d) = v["desc"].as_str().filter(|d| d.starts_with("Resource(")) {
+                out.insert(d.to_string());
+            }
+        }
+        _ => {}
+    }
+}
+
+/// the resources the contract's imports define: resource exports that are not used from elsewhere
+fn contract_resources(v: &Value) -> usize {
+    match v["c"].as_str() {
+        Some("inst") => v["ex"]
+            .as_object()
+            .map(|m| {
+                m.iter()
+                    .map(|(n, k)| {
+                        if k["c"] == "rtype" && k["desc"] == "resource" {
+                            usize::from(v["us"].get(n.as_str()).is_none())
+                        } else {
+                            contract_resources(k)
+                        }
+                    })
+                    .sum()
+            })
+            .unwrap_or(0),
+        _ => 0,
     }
 }
 
@@ -105,6 +217,7 @@ fn main() {
     let data: Value = serde_json::from_str(&std::fs::read_to_string(format!("{}/agg.json", arg("--data", "data"))).unwrap()).unwrap();
     let e2e_every: usize = arg("--e2e-every", "1").parse().unwrap();
     let probe = std::env::args().any(|a| a == "--probe");
+    let trace = std::env::args().any(|a| a == "--trace");
     let sigs: HashMap<String, String> = data["sigs"].as_object().unwrap().iter().map(|(d, n)| (d.clone(), n.as_str().unwrap().to_string())).collect();
     let sigs_by_name: BTreeMap<String, String> = sigs.iter().map(|(d, n)| (n.clone(), d.clone())).collect();
     let mut contribs: HashMap<u64, Contributor> = HashMap::new();
@@ -195,6 +308,10 @@ fn main() {
                     }
                     Ok(Ok(a)) => agg = Some(a),
                 }
+                if trace {
+                    let a = agg.as_ref().unwrap();
+                    eprintln!("after aggregate({name}) of #{id}: {:?}", a.imports().map(|(n, k)| format!("{n}={}", describe(a.types(), &sigs, k, true))).collect::<Vec<_>>());
+                }
                 reqs.push((k, name.clone(), kind));
             }
         }
@@ -220,6 +337,10 @@ fn main() {
             }
             if agg.imports().count() != got.len() {
                 emit(&mut so, "names", "an import name is listed twice".into());
+            }
+            let all: Vec<(String, ItemKind)> = agg.imports().map(|(n, k)| (n.to_string(), k)).collect();
+            for what in use_transparency(agg.types(), &all) {
+                emit(&mut so, "uses", what);
             }
             for (k, name, kind) in &reqs {
                 let canon = agg.canonical_import_name(name).to_string();
@@ -271,6 +392,12 @@ fn main() {
                                     v["imports"].as_object().map(|m| m.iter().map(|(n, k)| (n.clone(), norm_spec(k, None))).collect()).unwrap_or_default();
                                 if got != want {
                                     emit(&mut so, "compose_imports", format!("the composition imports {}, the contract says {}", json!(got), json!(want)));
+                                }
+                                let mut rs = HashSet::new();
+                                d.imports.iter().for_each(|(_, k)| decoded_resources(k, &mut rs));
+                                let want_rs: usize = v["imports"].as_object().map(|m| m.values().map(contract_resources).sum()).unwrap_or(0);
+                                if rs.len() != want_rs {
+                                    emit(&mut so, "compose_resources", format!("the composition's imports define {} distinct resources, the contract says {want_rs}", rs.len()));
                                 }
                             }
                         }
